@@ -222,3 +222,78 @@ Proof.
         as (m' & C1 & C2 & C3 & C4).
       exists m'. rewrite C1. repeat split; [cbn [length app] in *; lia|exact C3|exact C4].
 Qed.
+
+(* ---- what the first pass computes, in terms of the fields of the relative part ------------- *)
+Definition keepf (f : elem) : bool := negb (is_empty f || is_dot f).
+
+(* every complete field that is neither empty nor "." followed by one separator; the last
+   field (possibly "." or empty) as it is *)
+Fixpoint emit (fs : list elem) : list Z :=
+  match fs with
+  | [] => []
+  | [l] => l
+  | f :: fs' => (if keepf f then f ++ [SEP] else []) ++ emit fs'
+  end.
+
+Definition noelt (acc : list Z) : bool := match acc with [] => true | x :: _ => x =? SEP end.
+
+Lemma emit_cons : forall f fs, fs <> [] -> emit (f :: fs) = (if keepf f then f ++ [SEP] else []) ++ emit fs.
+Proof. intros f fs H. destruct fs; [congruence|reflexivity]. Qed.
+
+Lemma emit_drop_seps : forall t, emit (fields (drop_seps t)) = emit (fields t).
+Proof.
+  induction t as [|c t IH]; [reflexivity|]. cbn [drop_seps fields]. destruct (c =? SEP) eqn:E.
+  - rewrite IH. rewrite emit_cons by apply fields_nonnil. reflexivity.
+  - cbn [fields]. rewrite E. reflexivity.
+Qed.
+
+Lemma has_root_drop_seps : forall t, has_root (drop_seps t) = false.
+Proof. induction t as [|c t IH]; [reflexivity|]. cbn [drop_seps]. destruct (c =? SEP) eqn:E; [exact IH|cbn; exact E]. Qed.
+
+Lemma is_dot_len2 : forall a b l, is_dot (l ++ [a; b]) = false.
+Proof.
+  intros a b l. destruct (is_dot (l ++ [a; b])) eqn:E; [|reflexivity].
+  apply is_dot_eq in E. apply (f_equal (@length Z)) in E. rewrite app_length in E. cbn in E. lia.
+Qed.
+
+Lemma dotb_partial : forall q acc0, noelt acc0 = true -> q <> [] -> sepfree q ->
+  dotb (q ++ acc0) = is_dot (rev q).
+Proof.
+  intros q acc0 Hn Hq Hs. destruct q as [|d [|e q']]; [congruence| |].
+  - cbn [app rev]. unfold is_dot. cbn [bytes_eqb]. rewrite andb_true_r.
+    destruct acc0 as [|x acc0']; [reflexivity|]. cbn in Hn. cbn [dotb]. rewrite Hn, andb_true_r. reflexivity.
+  - cbn [app dotb rev]. rewrite <- app_assoc. cbn [app]. rewrite is_dot_len2.
+    inversion Hs; subst. inversion H2; subst. apply Z.eqb_neq in H3. rewrite H3, andb_false_r. reflexivity.
+Qed.
+
+Lemma P1_spec : forall fuel rest q acc0,
+  (length rest < fuel)%nat -> noelt acc0 = true -> sepfree q -> (q = [] -> has_root rest = false) ->
+  P1 fuel rest (q ++ acc0) = Some (rev (emit (fields (rev q ++ rest))) ++ acc0).
+Proof.
+  induction fuel as [|f IH]; intros rest q acc0 Hf Hn Hs Hq; [lia|].
+  cbn [P1]. destruct rest as [|c rest'].
+  - rewrite app_nil_r. rewrite fields_sepfree by (apply Forall_rev; exact Hs). cbn [emit].
+    rewrite rev_involutive. reflexivity.
+  - cbn [length] in Hf. destruct (c =? SEP) eqn:Ec.
+    + apply Z.eqb_eq in Ec. subst c.
+      assert (Hqne : q <> []) by (intro A; specialize (Hq A); cbn in Hq; discriminate).
+      rewrite fields_app_sep by (apply Forall_rev; exact Hs).
+      rewrite emit_cons by apply fields_nonnil.
+      rewrite dotb_partial by assumption.
+      pose proof (drop_seps_length rest') as DL.
+      unfold keepf. destruct (is_dot (rev q)) eqn:Ed.
+      * rewrite orb_true_r. cbn [negb app].
+        apply is_dot_eq in Ed. assert (q = [DOT]) as -> by (rewrite <- (rev_involutive q), Ed; reflexivity).
+        cbn [app tl]. rewrite <- emit_drop_seps.
+        apply (IH (drop_seps rest') [] acc0); [lia|exact Hn|constructor|intros _; apply has_root_drop_seps].
+      * assert (is_empty (rev q) = false) as ->.
+        { destruct (rev q) eqn:R; [|reflexivity]. apply (f_equal (@rev Z)) in R. rewrite rev_involutive in R. cbn in R. congruence. }
+        cbn [orb negb]. rewrite <- emit_drop_seps.
+        pose proof (IH (drop_seps rest') [] (SEP :: q ++ acc0) ltac:(lia) eq_refl (Forall_nil _)
+                      (fun _ => has_root_drop_seps rest')) as I.
+        cbn [rev app] in I. rewrite I.
+        cbn [rev app]. rewrite !rev_app_distr. cbn [rev app]. rewrite rev_involutive, <- !app_assoc. reflexivity.
+    + change (c :: q ++ acc0) with ((c :: q) ++ acc0).
+      rewrite (IH rest' (c :: q) acc0); [|lia|exact Hn|constructor; [apply Z.eqb_neq; exact Ec|exact Hs]|discriminate].
+      cbn [rev]. rewrite <- app_assoc. reflexivity.
+Qed.
